@@ -21,6 +21,8 @@ Verdict(v) ==
   ELSE IF TempsOf(v.attrsWhole) # DeriveTemps(v.whole) THEN "setpoint limits are not the documented function of the parsed capabilities"
   ELSE IF FlagsOf(v.attrsReuse) # FlagsOf(v.attrsWhole) \/ SetsOf(v.attrsReuse) # SetsOf(v.attrsWhole) \/ TempsOf(v.attrsReuse) # TempsOf(v.attrsWhole)
        THEN "an object that queried another unit's capabilities before reports something else than a fresh object (state carried across queries)"
+  ELSE IF FlagsOf(v.attrsAfterState) # FlagsOf(v.attrsWhole) \/ SetsOf(v.attrsAfterState) # SetsOf(v.attrsWhole) \/ TempsOf(v.attrsAfterState) # TempsOf(v.attrsWhole)
+       THEN "an object that polled the unit's state before reports other capabilities than a fresh object (state leaking into capabilities)"
   ELSE IF BadSplit(v.splits, v.attrsWhole, 1) # 0
        THEN "split delivery differs from single response at split point " \o ToString(v.splits[BadSplit(v.splits, v.attrsWhole, 1)].at)
   ELSE "ok"
